@@ -257,6 +257,7 @@ StateWit(m, ev) ==
   \cup (IF ~ev.busy /\ m.synced /\ ~m.server /\ m.mode # <<>> THEN {"server_off"} ELSE {})
   \cup (IF ~ev.busy /\ m.synced /\ m.keep # {} /\ m.keep \subseteq Gens(I) THEN {"instance_kept"} ELSE {})
   \cup (IF ev.busy THEN {"update_in_progress"} ELSE {})
+  \cup (IF \E j \in 1..Len(I) : I[j].hint THEN {"port_hint_shown"} ELSE {})
   \cup (IF ev.busy /\ ev.blocked # <<>> /\ m.lastop \in {"set_mode", "set_server"} THEN {"option_changed_during_update"} ELSE {})
   \cup (IF \E j \in 1..Len(I) : I[j].run /\ Len(I[j].addrs) >= 3 THEN {"dual_transport"} ELSE {})
   \cup (IF \E j \in 1..Len(I) : I[j].run /\ m.sp[I[j].spec].lport = 0 THEN {"port_zero"} ELSE {})
